@@ -95,6 +95,7 @@ func NewTxGen(h *History) *TxGen {
 		g.makers = append(g.makers,
 			maker{"rt-submitmsg", w(4, "runtime", 2), (*TxGen).mkSubmitMsg},
 			maker{"rt-evidence", w(3, "runtime", 2), (*TxGen).mkEvidence},
+			maker{"rt-register", w(2, "registry", 3), (*TxGen).mkRegisterRuntime},
 		)
 	}
 	return g
@@ -697,7 +698,7 @@ func (g *TxGen) Next(height int64) []*GenTx {
 		out = append(out, gt)
 		if gt.Signer != nil && gt.Tx != nil && (gt.Intent == "valid" || gt.Intent == "gas-too-low" || gt.Intent == "malformed-body" ||
 			gt.Intent == "wrong-tx-signer" || gt.Intent == "missing-signature" || gt.Intent == "extra-signature" ||
-			gt.Intent == "duplicate-subkey" || gt.Intent == "bad-expiration" ||
+			gt.Intent == "duplicate-subkey" || gt.Intent == "bad-expiration" || gt.Intent == "forbidden-update" || gt.Intent == "former-owner-update" ||
 			strings.HasPrefix(gt.Intent, "rt:")) && gt.Tx.Nonce == g.nonce(gt.Signer) { // runtime support: "rt:" intents fail after authentication
 			g.bump(gt.Signer)
 		}
